@@ -87,6 +87,7 @@ structure LogFile where
   bytes : List Nat
   fileLen : Nat
   firstIndex : Nat          -- header.first_index
+  hdrTerm : Nat             -- header.last_term
   interval : Nat            -- header.index_interval
   areaEnd : Nat             -- header.data_area_index
   indexs : List Idx
@@ -108,8 +109,8 @@ def beN (w n : Nat) : List Nat := (List.range w).reverse.map fun i => n / 256 ^ 
 def unbeN (bs : List Nat) : Nat := bs.foldl (fun acc b => acc * 256 + b) 0
 
 /-- `LogIndexHeaderDo` written big endian by binrw: 32 bytes -/
-def header (lastTerm firstIndex : Nat) : List Nat :=
-  beN 4 0x42313644 ++ beN 2 0 ++ beN 8 lastTerm ++ beN 8 firstIndex ++ beN 2 4096 ++ beN 2 128 ++
+def header (lastTerm firstIndex interval areaEnd : Nat) : List Nat :=
+  beN 4 0x42313644 ++ beN 2 0 ++ beN 8 lastTerm ++ beN 8 firstIndex ++ beN 2 areaEnd ++ beN 2 interval ++
   beN 2 0 ++ [0, 0, 0, 0]
 
 def lastIdx (f : LogFile) : Idx := f.indexs.getLast?.getD ⟨f.startIndex, dataStart⟩
@@ -150,16 +151,6 @@ def readIndexs (area : List Nat) (start interval : Nat) : List Idx × Nat :=
 def startIdx (f : LogFile) (start : Nat) : Idx :=
   ((f.indexs.filter (·.logIndex ≤ start)).getLast?).getD (f.indexs.headD ⟨f.startIndex, dataStart⟩)
 
-/-- skip `k` frames with `read_len` (which fails on a zero length / end of file); `s` is the file from the
-current position on, `zeros` the number of pre-allocated zero bytes after it -/
-def skipFrames : Nat → List Nat → Nat → Nat → Option Nat
-  | 0, _, _, p => some p
-  | k + 1, s, zeros, p =>
-    let w := if s.length < 10 then s ++ List.replicate (min 10 zeros) 0 else s
-    match readLen ⟨w, 0⟩ with
-    | some len => skipFrames k (s.drop len) zeros (p + len)
-    | none => none
-
 /-- `read_records(start, end)`; `none` = the error path (the actor answers with an empty list) -/
 def readRecords (f : LogFile) (start stop : Nat) : Option (List Rec) :=
   let s := max start f.splitOff
@@ -167,44 +158,49 @@ def readRecords (f : LogFile) (start stop : Nat) : Option (List Rec) :=
   if s ≥ e then some []
   else
     let idx := startIdx f s
-    match skipFrames (s - idx.logIndex) (f.bytes.drop idx.fileIndex) (f.fileLen - f.bytes.length) idx.fileIndex with
+    -- `FileMessageReader::read_index_position` from the index entry, then the chunked decode
+    match readIndexPosition (s - idx.logIndex) ⟨f.bytes, idx.fileIndex⟩ with
     | none => none
-    | some p => (scanFrames f.bytes p (e - s)).mapM decFrame
+    | some ((p, _), _) => (scanFrames f.bytes p (e - s)).mapM decFrame
 
 /-- `LogInnerManager::init` on a file that does not exist yet (or is empty) -/
-def create (start preTerm splitOff : Nat) : LogFile :=
-  { bytes := header preTerm start ++ List.replicate (dataStart - 32) 0, fileLen := allocStep,
-    firstIndex := start, interval := 128, areaEnd := 4096,
+def create (start preTerm splitOff : Nat) (interval : Nat := 128) (areaEnd : Nat := 4096) : LogFile :=
+  { bytes := header preTerm start interval areaEnd ++ List.replicate (dataStart - 32) 0, fileLen := allocStep,
+    firstIndex := start, hdrTerm := preTerm, interval := interval, areaEnd := areaEnd,
     indexs := [⟨start, dataStart⟩], startIndex := start, indexCursor := 32, dataCursor := dataStart,
     msgCount := 0, lastTerm := preTerm, curCount := 0, splitOff := max splitOff start,
     pos := dataStart, needSeek := false }
+
+/-- the end of `init`: the term of the last record, if there is one that is not split off -/
+def initTerm (f0 : LogFile) (preTerm : Nat) : LogFile :=
+  if f0.msgCount > 0 then
+    if max (endIndex f0 - 1) f0.splitOff ≥ endIndex f0 then f0
+    else
+      match readRecords f0 (endIndex f0 - 1) (endIndex f0) with
+      | some rs => { f0 with lastTerm := (rs.getLast?.map (·.term)).getD preTerm, needSeek := true }
+      | none => f0   -- an error inside read_records: the handle has moved but the flag is not set
+  else f0
 
 /-- `LogInnerManager::init` on an existing file -/
 def load (bytes : List Nat) (fileLen start preTerm splitOff : Nat) : LogFile :=
   let head := (bytes ++ List.replicate (dataStart - bytes.length) 0).take dataStart
   let firstIndex := unbeN ((head.drop 14).take 8)
+  let hdrTerm := unbeN ((head.drop 6).take 8)
   let areaEnd := unbeN ((head.drop 22).take 2)
   let interval := unbeN ((head.drop 24).take 2)
   let (indexs, off) := readIndexs (head.drop 32) start interval
   let li := indexs.getLast?.getD ⟨start, dataStart⟩
   let (dc, mc) := moveByCount bytes li start 0xffff
   let f0 : LogFile :=
-    { bytes := bytes, fileLen := fileLen, firstIndex := firstIndex, interval := interval, areaEnd := areaEnd,
+    { bytes := bytes, fileLen := fileLen, firstIndex := firstIndex, hdrTerm := hdrTerm, interval := interval, areaEnd := areaEnd,
       indexs := indexs, startIndex := start, indexCursor := off + 32, dataCursor := dc, msgCount := mc,
       lastTerm := preTerm, curCount := if interval = 0 then 0 else mc % interval,
       splitOff := max splitOff start, pos := dc, needSeek := false }
-  if mc > 0 then
-    let e := endIndex f0
-    let s := max (e - 1) f0.splitOff
-    if s ≥ e then f0
-    else
-      match readRecords f0 (e - 1) e with
-      | some rs => { f0 with lastTerm := (rs.getLast?.map (·.term)).getD preTerm, needSeek := true }
-      | none => f0   -- an error inside read_records: the handle has moved but the flag is not set
-  else f0
+  initTerm f0 preTerm
 
-def init (disk : List Nat) (fileLen start preTerm splitOff : Nat) : LogFile :=
-  if fileLen = 0 then create start preTerm splitOff else load disk fileLen start preTerm splitOff
+def init (disk : List Nat) (fileLen start preTerm splitOff : Nat) (interval : Nat := 128) (areaEnd : Nat := 4096) :
+    LogFile :=
+  if fileLen = 0 then create start preTerm splitOff interval areaEnd else load disk fileLen start preTerm splitOff
 
 def isFull (f : LogFile) : Bool := f.indexCursor + 10 ≥ f.areaEnd || f.dataCursor ≥ 2000000000
 
@@ -219,15 +215,16 @@ def write (f : LogFile) (r : Rec) : LogFile × Mark :=
     let bytes1 := writeAt f.bytes p buf
     let dc := f.dataCursor + buf.length
     let mc := f.msgCount + 1
-    let f1 : LogFile := { f with bytes := bytes1, fileLen := fileLen2, pos := p + buf.length, needSeek := false,
-                                 dataCursor := dc, curCount := f.curCount + 1, lastTerm := r.term, msgCount := mc }
     let f2 : LogFile :=
-      if f1.curCount = f1.interval then
-        let delta := vwrite (dc - (lastIdx f1).fileIndex)
-        { f1 with curCount := 0, bytes := writeAt f1.bytes f1.indexCursor delta,
-                  indexCursor := f1.indexCursor + delta.length,
-                  indexs := f1.indexs ++ [⟨mc + f1.firstIndex, dc⟩] }
-      else f1
+      if f.curCount + 1 = f.interval then
+        -- the record completes an index step: the offset step since the last index entry is appended
+        let delta := vwrite (dc - (lastIdx f).fileIndex)
+        { f with bytes := writeAt bytes1 f.indexCursor delta, fileLen := fileLen2, pos := p + buf.length,
+                 needSeek := false, dataCursor := dc, curCount := 0, lastTerm := r.term, msgCount := mc,
+                 indexCursor := f.indexCursor + delta.length, indexs := f.indexs ++ [⟨mc + f.firstIndex, dc⟩] }
+      else
+        { f with bytes := bytes1, fileLen := fileLen2, pos := p + buf.length, needSeek := false,
+                 dataCursor := dc, curCount := f.curCount + 1, lastTerm := r.term, msgCount := mc }
     (f2, if isFull f2 then .successToEnd else .success)
 
 /-- `get_file_index_by_log_index`: walking the index entries backwards, the entry to restart from, the
@@ -244,22 +241,34 @@ def findIdxGo : List Idx → Idx → Nat → Nat → Nat → Option (Idx × Nat 
 def findIdx (f : LogFile) (k : Nat) : Option (Idx × Nat × Nat) :=
   findIdxGo f.indexs.reverse (lastIdx f) 0 0 k
 
+/-- `strip_log_to` up to the point where the file has been cut: index entries dropped and zeroed, the data
+cursor moved back by re-scanning from the index entry, the removed records zeroed -/
+def stripCore (f : LogFile) (k : Nat) (idx : Idx) (len pop : Nat) : LogFile :=
+  let f1 : LogFile :=
+    if pop > 0 then
+      { f with indexs := f.indexs.take (f.indexs.length - pop), indexCursor := f.indexCursor - len,
+               bytes := writeAt f.bytes (f.indexCursor - len) (List.replicate len 0) }
+    else f
+  let cnt := k - idx.logIndex
+  let mv := moveByCount f1.bytes idx f1.startIndex cnt
+  { f1 with dataCursor := mv.1, msgCount := mv.2, curCount := cnt, pos := mv.1, lastTerm := f1.hdrTerm,
+            bytes := writeAt f1.bytes mv.1 (List.replicate (f.dataCursor - mv.1) 0) }
+
+/-- the end of `strip_log_to`: the term of the last remaining record -/
+def refreshTerm (f2 : LogFile) (k : Nat) : LogFile :=
+  if f2.msgCount > 0 ∧ max (k - 1) f2.splitOff < min k (endIndex f2) then
+    match readRecords f2 (k - 1) k with
+    | some rs => { f2 with needSeek := true, lastTerm := (rs.getLast?.map (·.term)).getD f2.hdrTerm }
+    | none => f2
+  else f2
+
 /-- `strip_log_to`; `none` = error ("not found index") -/
 def strip (f : LogFile) (k : Nat) : Option LogFile :=
   if k ≥ endIndex f then some f
   else
     match findIdx f k with
     | none => none
-    | some (idx, len, pop) =>
-      let f1 : LogFile :=
-        if pop > 0 then
-          { f with indexs := f.indexs.take (f.indexs.length - pop), indexCursor := f.indexCursor - len,
-                   bytes := writeAt f.bytes (f.indexCursor - len) (List.replicate len 0) }
-        else f
-      let cnt := k - idx.logIndex
-      let (dc, mc) := moveByCount f1.bytes idx f1.startIndex cnt
-      some { f1 with dataCursor := dc, msgCount := mc, curCount := cnt, pos := dc,
-                     bytes := writeAt f1.bytes dc (List.replicate (f.dataCursor - dc) 0) }
+    | some (idx, len, pop) => some (refreshTerm (stripCore f k idx len pop) k)
 
 /-- `get_last_index_info` -/
 def lastInfo (f : LogFile) : Nat × Nat := (endIndex f - 1, f.lastTerm)
